@@ -6,6 +6,11 @@ template_asts / function_asts is the harness' choice) and every look-up pattern 
 on each order the written multiset equals the same order-independent oracle (each finding of a
 user-file definition exactly once), hence the written multiset is the same for all orders and
 does not depend on which definitions looked which others up first.
+
+Added after seed C17_2: the real `main` + writers harness of C03 for pairs of reports with the SAME report code
+(and symbolic, possibly equal, label ranges in possibly different files): what is displayed for one
+report must not depend on which other report was displayed before it (each report passing the filters
+is displayed exactly once), so the displayed multiset does not depend on the order of files / definitions.
 """
 from . import common, C03
 
@@ -16,7 +21,12 @@ def run_task(task): return C03.run_task(task)
 def main(tier, replay=None):
     import specs.C03 as c3
     orig_tasks = c3.tasks
-    c3.tasks = lambda tier, prop='C17': [dict(k, prop='C17') for k in c3.RUNNER_SHAPES('thorough' if tier == 'thorough' else 'quick')]
+    def tasks17(tier, prop='C17'):
+        ts = [dict(k, prop='C17') for k in c3.RUNNER_SHAPES('thorough' if tier == 'thorough' else 'quick')]
+        n = 2 if tier == 'quick' else 3
+        ts += [{'kind': 'main', 'allow': a, 'sarif': sf, 'codes': [c] * n, 'prop': 'C17'} for a in (0, 1) for sf in (False, True) for c in range(len(c3.CODES))]
+        return ts
+    c3.tasks = tasks17
     orig_is = c3.is_c02_violation
     try:
         return c3.main(tier, replay, prop='C17')
